@@ -1189,3 +1189,70 @@ package anytype
 //@   requires invL(ego)
 //@   panics_iff !tfDefL(ego, tf)
 //@   ensures  value: result == tfValL(ego, tf)
+
+// ---------------------------------------------------------------------------
+// Object: typed views (C14) over a ghost enumeration of the fields (any iteration order)
+// ---------------------------------------------------------------------------
+
+//@ template oforeach-kind(FNAME, KIND, A0, A1)
+//@ func (*object).FNAME callbacks [C14 C19]
+//@   requires invO(ego)
+//@   let n := len(ego.val)
+//@   let t0 := trlen()
+//@   assigns  nothing
+//@   panics_iff false
+//@   ensures  calls: exists o ord :: {isEnum(o, dom(ego.val), n)} isEnum(o, dom(ego.val), n) && trlen() == t0 + cntV(composeOV(o, vals(ego.val)), KIND, n) && (forall k int :: {cntV(composeOV(o, vals(ego.val)), KIND, k)} 0 <= k && k < n && visited(KIND, ego.val[o[k]]) ==> trA(t0 + cntV(composeOV(o, vals(ego.val)), KIND, k)) == A0 && trB(t0 + cntV(composeOV(o, vals(ego.val)), KIND, k)) == A1)
+//@   ensures  prefix: forall j int :: 0 <= j && j < t0 ==> trA(j) == old(trA(j)) && trB(j) == old(trB(j))
+//@   ensures  fluent: result == ego.ptr [C19]
+//@   loop 1
+//@     assigns nothing
+//@     let o := ord
+//@     let A := composeOV(ord, vals(ego.val))
+//@     let ci := cntV(A, KIND, idx)
+//@     invariant range: 0 <= idx && idx <= ordn && ordn == n && 0 <= ci
+//@     invariant count: trlen() == t0 + ci
+//@     invariant calls: forall k int :: {cntV(A, KIND, k)} 0 <= k && k < idx && visited(KIND, ego.val[o[k]]) ==> 0 <= cntV(A, KIND, k) && cntV(A, KIND, k) < ci && trA(t0 + cntV(A, KIND, k)) == A0 && trB(t0 + cntV(A, KIND, k)) == A1
+//@     invariant prefix: forall j int :: 0 <= j && j < t0 ==> trA(j) == old(trA(j)) && trB(j) == old(trB(j))
+//@     decreases ordn - idx
+//@ end
+//@ instantiate oforeach-kind(ForEach, 0, VStr(o[k]), valOf(ego.val[o[k]]))
+//@ instantiate oforeach-kind(ForEachValue, 0, valOf(ego.val[o[k]]), VNil)
+//@ instantiate oforeach-kind(ForEachObject, TObject, ego.val[o[k]], VNil)
+//@ instantiate oforeach-kind(ForEachList, TList, ego.val[o[k]], VNil)
+//@ instantiate oforeach-kind(ForEachString, TString, argStr(ego.val[o[k]]), VNil)
+//@ instantiate oforeach-kind(ForEachBool, TBool, argBool(ego.val[o[k]]), VNil)
+//@ instantiate oforeach-kind(ForEachInt, TInt, argInt(ego.val[o[k]]), VNil)
+//@ instantiate oforeach-kind(ForEachFloat, TFloat, argFloat(ego.val[o[k]]), VNil)
+
+//@ template omap-kind(FNAME, KIND, A0, A1)
+//@ func (*object).FNAME callbacks [C14 C09 C12]
+//@   requires invO(ego)
+//@   let n := len(ego.val)
+//@   let t0 := trlen()
+//@   assigns  nothing
+//@   panics_iff exists k str :: has(ego.val, k) && visited(KIND, ego.val[k]) && !supp(cbret(A0, A1))
+//@   plet r := obj(voref(result))
+//@   ensures  new: isVObj(result) && fresh(r) && plain(r) && invO(r) && r.ptr == result && fresh(mapid(r.val))
+//@   ensures  keys: forall k str :: {has(r.val, k)} has(r.val, k) == (old(has(ego.val, k)) && visited(KIND, old(ego.val[k])))
+//@   ensures  vals: forall k str :: {r.val[k]} has(r.val, k) ==> wrapsS(r.val[k], old(cbret(A0, A1)))
+//@   ensures  prefix: forall j int :: 0 <= j && j < t0 ==> trA(j) == old(trA(j)) && trB(j) == old(trB(j))
+//@   loop 1
+//@     assigns obj(obj(voref(result)))
+//@     let r := obj(voref(result))
+//@     elet m0 := mapid(obj(voref(result)).val)
+//@     invariant range: 0 <= idx && idx <= ordn && ordn == n && trlen() >= t0
+//@     invariant hdr: isVObj(result) && fresh(r) && plain(r) && invO(r) && r.ptr == result && mapid(r.val) == m0 && fresh(m0)
+//@     invariant keys: forall k str :: {has(r.val, k)} has(r.val, k) == (has(ego.val, k) && visited(KIND, ego.val[k]) && ordpos[k] < idx)
+//@     invariant vals: forall k str :: {r.val[k]} has(r.val, k) ==> wrapsS(r.val[k], cbret(A0, A1))
+//@     invariant none-bad: forall k str :: {ordpos[k]} has(ego.val, k) && visited(KIND, ego.val[k]) && ordpos[k] < idx ==> supp(cbret(A0, A1))
+//@     invariant prefix: forall j int :: 0 <= j && j < t0 ==> trA(j) == old(trA(j)) && trB(j) == old(trB(j))
+//@     decreases ordn - idx
+//@ end
+//@ instantiate omap-kind(Map, 0, VStr(k), valOf(ego.val[k]))
+//@ instantiate omap-kind(MapValues, 0, valOf(ego.val[k]), VNil)
+//@ instantiate omap-kind(MapObjects, TObject, ego.val[k], VNil)
+//@ instantiate omap-kind(MapLists, TList, ego.val[k], VNil)
+//@ instantiate omap-kind(MapStrings, TString, argStr(ego.val[k]), VNil)
+//@ instantiate omap-kind(MapBools, TBool, argBool(ego.val[k]), VNil)
+//@ instantiate omap-kind(MapInts, TInt, argInt(ego.val[k]), VNil)
+//@ instantiate omap-kind(MapFloats, TFloat, argFloat(ego.val[k]), VNil)
